@@ -14,19 +14,19 @@ CLAIMS = {
    technique="Lean 4 proof over a translator-generated model + differential correspondence", ref="DESIGN.md §7 C20"),
  "C07": dict(
    text="Lean 4 theorems over the executable model of the backend request server (table of dispatch arms with their ordered guard calls): a gated request whose protocol-feature bit is not acknowledged never reaches the handler (for every header, body, descriptor list, stream segmentation and handler script), the acknowledged protocol features always equal what the handler was last told (invariant over all histories), ring enable needs bit 30, GET_PROTOCOL_FEATURES always offers REPLY_ACK. The model is tied to backend_req_handler.rs by the `srv` correspondence family (real BackendReqHandler vs model vs Spec on every gated request x feature subsets x message orders).",
-   note="Backend side proved; the model's dispatch table is hand-written and tied to the code by correspondence only. Frontend-endpoint and proxy gates: covered by the `fe`/`proxy` families once claimed (see evidence.families).",
+   note="Backend and frontend-endpoint gates proved (backend_gate, history_gate, frontend_gate, frontend_ring_enable_needs_protocol_features, ...); the backend model's dispatch table is compared arm by arm with the guard calls the translator extracts from handle_request (Props.Dispatch.arms_match_source), so a dropped or reordered check_proto_feature breaks a proof obligation; proxy gates come with C18's families.",
    technique="Lean 4 proof (invariant over histories) over a hand-written executable model + differential correspondence", ref="DESIGN.md §7 C07"),
  "C05": dict(
    text="Lean 4 theorems over the executable model of the backend request server for arbitrary cell streams, choosers (segmentations) and handler scripts: unknown codes and invalid headers are never dispatched, at most one handler call per request, the memory-table arm reads only inside the received body; the model (which uses the validators regenerated from the source) is compared with the real server on grammar-aware malformed streams; every handler call observed is checked against the protocol's validity rules and every request violating a listed rule must be refused without a handler call; a panic (overflow checks and debug assertions on) is a violation.",
-   note="`handler_args_valid` is decided per observed call by the spec driver (sampled) and by C20's validator theorems; memory safety of the unsafe casts is trusted to rustc given the length guards; the daemon-side arithmetic (vhost-user-backend handler) is covered by the daemon families as they are claimed.",
+   note="Props.C05Args proves `handler_args_valid` for every request, stream, chooser, handler script and history: whatever reaches a handler satisfies Spec validity (sizes, validators, descriptor counts); memory safety of the unsafe casts is trusted to rustc given the length guards; the daemon-side arithmetic (vhost-user-backend handler) is covered by the daemon families as they are claimed.",
    technique="Lean 4 proof over a hand-written executable model + differential correspondence on malformed input", ref="DESIGN.md §7 C05"),
  "C04": dict(
    text="Lean 4 theorems over the executable model of the backend request server: the REPLY_ACK flag equals (PROTOCOL_FEATURES offered and REPLY_ACK acknowledged) after every history (invariant), every acknowledgement is written iff that flag and NEED_REPLY hold and is 0 iff the handler succeeded, every reply header carries the request's code, version 1|REPLY without NEED_REPLY and the payload size. The byte-exact reaction to every well-formed request (exactly one reply / one ack / nothing, consumed exactly header+size) is compared with Spec.Proto.owed and with the model on exhaustive single-request scenarios after each negotiation prefix and on random histories.",
-   note="`reply_as_owed` for all 34 arms is decided by the spec driver on observed replies (sampled), not yet by a theorem.",
+   note="Props.C04Owed proves for all inputs and all 34 implemented codes: an accepted request calls the handler exactly once as Spec.Proto.expectedCall prescribes, the bytes written satisfy Spec.Proto.owed (reply_as_owed), the negotiation state commutes with Spec.updateNeg, over any history of accepted requests the k-th reply answers the k-th request that is owed one, and a rejected request is never dispatched; the model's dispatch table is tied to the source by Props.Dispatch.arms_match_source (translator) and the correspondence.",
    technique="Lean 4 proof (state invariant, reply shape) over a hand-written executable model + differential correspondence", ref="DESIGN.md §7 C04"),
  "C02": dict(
    text="Lean 4 theorems over the executable model of the frontend endpoint (Model.Frontend: local checks, request construction, reply readers): every call the API refuses locally (queue index beyond the maximum or beyond the 8-bit index field, empty/oversized region list, zero-sized region, invalid config window, un-negotiated feature) writes nothing and leaves the state unchanged; request headers carry version 1, no reserved bit, NEED_REPLY exactly when requested; wire = header ++ body. The composition Frontend -> wire -> BackendReqHandler -> handler (exactly one invocation, equal arguments and payload, same open files by fstat identity) is compared on every operation of the API with lattice arguments against the Spec and the model.",
-   note="`call_reaches_handler` (composition) is decided by the spec driver on observed sessions (sampled), not yet by a theorem; adapters (Mutex/RwLock/Arc) are exercised through BackendReqHandler<Mutex<..>> only.",
+   note="Props.C02Reach proves the composition Model.Frontend.request -> wire -> Model.BackendSrv.step for every operation, all argument values in the fields' ranges, every chooser and every session (`call_reaches_handler`, `call_reaches_handler_stream`, `session_calls`); the two call forms for which it is false are proved as counterexamples (`set_log_fd_counterexample`, `set_log_base_plain_counterexample`), replayed on the real crates and listed as known findings F-C02-logfd / F-C02-logbase-plain. Adapters (Mutex/RwLock/Arc) are exercised through BackendReqHandler<Mutex<..>> only (correspondence).",
    technique="Lean 4 proof over a hand-written executable model + differential correspondence (real frontend vs real server)", ref="DESIGN.md §7 C02"),
  "C03": dict(
    text="Lean 4 theorems over Model.Frontend: set-operations read nothing unless REPLY_ACK is acknowledged and NEED_REPLY requested; an awaited acknowledgement yields success only for value 0; once the connection is closed no reply reader ever waits (for every stream, segmentation and request kind), including the repaired GET_CONFIG reader which reads exactly the payload the reply header declares. Per operation, the value returned for every handler success and the error returned in bounded time for every handler failure / unusable result are compared with the Spec on sessions against the real request server (which closes the connection on a failed request, as the daemon does), with a watchdog for calls that do not return.",
@@ -50,7 +50,7 @@ CLAIMS = {
    technique="Lean 4 proof (decide over translator-generated tables + layout algorithm) + byte-exact differential correspondence", ref="DESIGN.md §7 C01"),
  "C09": dict(
    text="Lean 4 theorems by token counting, for every chooser/stream/size: after recv_into_iovec_all (resp. recv_data) each descriptor that rode on the stream is in exactly one of {handed to the caller, closed by the library, still unread}; descriptors of later reads are never handed out; the caller gets at most the receive limit. The token flow through the dispatch arms is part of the executable model; the real process is inspected after every scenario (valid, invalid, truncated, over-stuffed histories with 0..40 descriptors, teardown after every message and error path): no open descriptor may refer to an object that travelled over the socket unless the application holds it; descriptors lent to the frontend API must still be open after the call.",
-   note="Linearity through the dispatch arms is checked by the leak scan on the real process (sampled), not yet by a theorem. Exit-event consumers of the workers (never sent over a socket) are excluded as stated in DESIGN.md.",
+   note="Props.C09Dispatch proves linearity through the dispatch arms and whole runs (dispatch/step/run_fds_linear: handed ++ closed ++ unread is a permutation of what arrived, no duplicates). Outgoing files returned by handlers and descriptors in the middle of a message are covered by the leak scan on the real process (sampled). Exit-event consumers of the workers (never sent over a socket) are excluded as stated in DESIGN.md.",
    technique="Lean 4 proof (linearity by counting, induction over the receive loops) + /proc/self/fd identity scan in the correspondence", ref="DESIGN.md §7 C09"),
  "C15": dict(
    text="Lean 4 theorems over the model of bitmap.rs and the handler's log state: SET_LOG_BASE is accepted iff the log holds the byte of every region's highest page; mark_dirty sets exactly the bits of the pages a write touches (bit p%8 of byte p/8) and no other, through any slice chain, for every offset/length incl. 0, usize::MAX and overflowing sums; every index touched is below the log length (the assert can never fire); any interleaving of any number of writers' fetch_or steps yields the OR of all; after any history of SET_LOG_BASE / SET_MEM_TABLE / ADD_MEM_REG / REM_MEM_REG a log in force covers every current region (repaired F-C15-retain; counterexamples for the old handler kept as theorems). Correspondence: real daemon with BitmapMmapRegion, 1..4 page-aligned memfd regions sharing log bytes, writes through GuestMemory and add_used across page/slice boundaries, all log sizes/offsets, guard bytes around the mapping, 2..16 concurrent writers, histories interleaving the log with table changes.",
